@@ -173,8 +173,13 @@ if __name__ == "__main__":
         rc = main()
     except SystemExit:
         raise
+    except BrokenPipeError:
+        rc = 2
     except BaseException as e:  # last-resort: a crash is never a violation
-        print(f"ANALYSIS-ERROR internal {type(e).__name__}: {e}")
+        try:
+            print(f"ANALYSIS-ERROR internal {type(e).__name__}: {e}")
+        except BrokenPipeError:
+            pass
         rc = 2
     sys.stdout.flush()
     sys.exit(rc)
